@@ -25,6 +25,7 @@ py_lstrip = z3.Function("py_lstrip", S, S)
 py_rstrip = z3.Function("py_rstrip", S, S)
 py_isspace = z3.Function("py_isspace", S, B)
 py_repeat = z3.Function("py_repeat", S, I, S)  # s * n
+py_chars_subset = z3.Function("py_chars_subset", S, S, B)  # frozenset(a) <= frozenset(b)
 opaque_truthy = z3.Function("opaque_truthy", Opaque, B)
 opaque_is_none = z3.Function("opaque_is_none", Opaque, B)
 
@@ -159,6 +160,13 @@ class VSlice(V):
         self.lo, self.hi = lo, hi
 
 
+class VCharSet(V):
+    """frozenset(s) of a string; `diff_of` = (a, b) for frozenset(a) - frozenset(b)"""
+
+    def __init__(self, z=None, diff_of=None):
+        self.z, self.diff_of = z, diff_of
+
+
 class VSpecFn(V):
     """Specification-only function (joined, old, count, ...)"""
 
@@ -232,6 +240,19 @@ class RecordObj(object):
 
     def __repr__(self):
         return "RecordObj(%r)" % (self.fields,)
+
+
+class MapObj(object):
+    """
+    dict with symbolic string keys, as a write log on top of an unknown base:
+    entries = [(key: z3 String, value: V)] in program order.  (C16: `paths`, `components[...]`)
+    """
+
+    def __init__(self, entries=()):
+        self.entries = list(entries)
+
+    def __repr__(self):
+        return "MapObj(%d writes)" % len(self.entries)
 
 
 class Unsupported(Exception):
